@@ -96,7 +96,7 @@ class Report:
             "counters": self.counters,
             "states": list(self.states),
             "transitions": list(self.transitions),
-            "outcomes": list(self.outcomes),
+            "outcomes": [o if isinstance(o, (str, int)) else repr(o) for o in self.outcomes],
             "notes": self.notes,
             "exhaustive": self.exhaustive,
             "caps": self.caps,
